@@ -1693,6 +1693,19 @@ def _inverted(a, b):
     return False
 
 
+def _fits_guard(side, fn, guards):
+    """innermost enclosing `if fits_iN(x)` → (N, polarity, x, predicate name), N from the predicate's own body"""
+    for g in reversed(guards):
+        if len(g) == 2 and is_e(g[0]) and g[0][0] == "call" and len(g[0][3]) == 1:
+            p = side.resolve_call(fn, g[0])
+            if p is not None and p.ret == "bool" and len(p.params) == 1:
+                lo, hi = pred_range(side, p, p.params[0][0], {})
+                if lo is not None and hi is not None and lo < 0 < hi:
+                    nb = max(bitlen(-lo - 1), bitlen(hi - 1)) + 1
+                    return (nb, g[1], uncast(g[0][3][0]), p.name)
+    return None
+
+
 def run_r4(chk, sides, infos):
     r = chk.rule("C08.R4", "resolve_jumps scales the byte distance by the instruction size after asserting "
                            "alignment, guards each short form with the fits_iN test of the class that encodes it, "
@@ -1705,24 +1718,23 @@ def run_r4(chk, sides, infos):
             continue
         evs = sym_events(fn)
         key = side.key(fn)
-        # (a) alignment assert before the division
-        mods = _mod_asserts(evs)
+        # (a) alignment assert before the division.  ISA fact (frozen): A64 instructions are 4 bytes and branch
+        # immediates count instructions.
         divided = None
         for n in walk(fn.body):
-            if n[0] == "let" and n[2] is not None and _is_div4(n[2]):
+            if n[0] == "let" and n[2] is not None and _is_div4(n[2]) and divided is None:
                 divided = n
-        r.instance(key + ":scale", sample={"asserts": [(srender(x), m) for (x, m) in mods]})
+        r.instance(key + ":scale")
         if divided is None:
             r.violation(key + ":scale", "no `distance / 4`: A64 branch immediates count 4-byte instructions "
                         "(ISA fact)", fn.where)
         else:
-            base = uncast(divided[2])[2]
             ok = False
             for ev in evs:
-                if ev.kind == "assert":
+                if ev.kind == "assert" and ev.node[2] <= divided[3]:
                     for c in _conjuncts(ev.node[1]):
                         mm = _mod_test(c)
-                        if mm is not None and mm[1] == 4 and ev.node[2] <= divided[3]:
+                        if mm is not None and mm[1] == 4:
                             ok = True
             if not ok:
                 r.violation(key + ":alignment", "the distance is divided by 4 without a preceding `% 4 == 0` assert: "
@@ -1738,11 +1750,12 @@ def run_r4(chk, sides, infos):
         r.floor("%s jump kinds" % side.lang, len(kinds), 5)
         meths = side.methods()
         for kind in sorted(kinds):
-            emis = []        # (class, class-arg exprs, guards)
+            emis = []        # (class, class Fn, class-arg exprs (None = not traced), fits guard, via method|None)
             for ev in kinds[kind]:
+                fg = _fits_guard(side, fn, ev.guards)
                 if ev.kind == "call":
-                    for (cn, cf, args, ev2) in class_sites(side, fn, [ev]):
-                        emis.append((cn, cf, args, ev.guards))
+                    for (cn, cf, args, _ev2) in class_sites(side, fn, [ev]):
+                        emis.append((cn, cf, args, fg, None))
                 elif ev.kind == "mcall" and ev.node[2] == ("var", "self") and ev.node[1] in meths:
                     g = meths[ev.node[1]]
                     for ai, a in enumerate(ev.node[3]):
@@ -1750,9 +1763,9 @@ def run_r4(chk, sides, infos):
                             cf = side.classes()[cn]
                             args = [None] * len(cf.params)
                             args[ci] = a
-                            emis.append((cn, cf, args, ev.guards))
+                            emis.append((cn, cf, args, fg, ev))
             ksum = {"classes": sorted({e[0] for e in emis}), "guard": None, "long": False}
-            for (cn, cf, args, guards) in emis:
+            for (cn, cf, args, fg, _via) in emis:
                 info = infos.get((side.lang, cn))
                 if info is None:
                     continue
@@ -1762,52 +1775,42 @@ def run_r4(chk, sides, infos):
                     at = info.atoms[cf.params[ci][0]]
                     if at.signed is None:
                         continue
-                    # a signed immediate of a class encoder inside resolve_jumps
                     ikey = "%s:%s:%s" % (key, kind, cn)
-                    fit_guards = []
-                    for g in guards:
-                        if len(g) == 2 and is_e(g[0]) and g[0][0] == "call":
-                            p = side.resolve_call(fn, g[0])
-                            if p is not None and p.ret == "bool" and len(g[0][3]) == 1:
-                                lo, hi = pred_range(side, p, p.params[0][0], {})
-                                if lo is not None and hi is not None and lo < 0:
-                                    nb = max(bitlen(-lo - 1), bitlen(hi - 1)) + 1
-                                    fit_guards.append((nb, g[1], uncast(g[0][3][0]), p.name))
                     lit = ceval(side, a)
-                    if lit is not None:
-                        # long form: skip constant
-                        neg = [fg for fg in fit_guards if fg[1] is False]
-                        r.instance(ikey + ":long", sample={"kind": kind, "class": cn, "skip": int(lit)})
-                        ksum["long"] = True
-                        if int(lit) != 2:
-                            r.violation(ikey + ":skip", "the long form of %s skips %d instructions; exactly one "
-                                        "(the unconditional branch that follows) must be skipped: 2" % (kind, int(lit)),
-                                        fn.where)
-                        if not neg:
-                            r.violation(ikey + ":long-unguarded", "the constant-distance form is not in the else "
-                                        "branch of a fits_iN test", fn.where)
-                        continue
                     if cn == "pcrel":
-                        # ISA fact: ADR takes a byte offset, not an instruction count
+                        # ISA fact (frozen): ADR takes a byte offset, not an instruction count
                         r.instance(ikey, sample={"kind": kind, "class": cn, "bytes": not _is_div4(a)})
                         if _is_div4(a):
                             r.violation(ikey + ":adr-scaled", "ADR receives the distance divided by 4; its "
                                         "immediate is a byte offset", fn.where)
                         continue
-                    pos = [fg for fg in fit_guards if fg[1] is True]
-                    negs = [fg for fg in fit_guards if fg[1] is False]
-                    if _is_div4_minus1(a):
-                        r.instance(ikey + ":far", sample={"kind": kind, "class": cn})
-                        if not negs:
-                            r.violation(ikey + ":far-unguarded", "`distance - 1` is branched to outside the else "
-                                        "branch of a fits_iN test", fn.where)
+                    if fg is not None and fg[1] is False:
+                        # long form: `b.inv +2 ; b distance-1`
+                        ksum["long"] = True
+                        if lit is not None:
+                            r.instance(ikey + ":skip", sample={"kind": kind, "class": cn, "skip": int(lit)})
+                            if int(lit) != 2:
+                                r.violation(ikey + ":skip", "the long form of %s skips %d instructions; exactly one "
+                                            "(the unconditional branch that follows) must be skipped: 2"
+                                            % (kind, int(lit)), fn.where)
+                        else:
+                            r.instance(ikey + ":far", sample={"kind": kind, "class": cn, "arg": srender(a)})
+                            if not _is_div4_minus1(a):
+                                r.violation(ikey + ":far", "the long form of %s branches to `%s`; the branch sits one "
+                                            "instruction after the jump site, so it must be distance - 1"
+                                            % (kind, srender(a)), fn.where)
+                        continue
+                    if lit is not None:
+                        r.violation(ikey + ":constant", "%s is emitted with the constant distance %d outside the "
+                                    "else-branch of a fits_iN test" % (cn, int(lit)), fn.where)
                         continue
                     r.instance(ikey, sample={"kind": kind, "class": cn, "field": at.signed,
-                                             "guard": [fg[0] for fg in pos]})
+                                             "guard": fg[0] if fg else None})
                     if not _is_div4(a):
                         r.violation(ikey + ":unscaled", "%s receives `%s`, which is not the distance divided by 4"
                                     % (cn, srender(a)), fn.where)
-                    for (nb, _pol, subj, pn_) in pos:
+                    if fg is not None:
+                        nb, _pol, subj, pn_ = fg
                         ksum["guard"] = nb
                         if subj != uncast(a):
                             r.violation(ikey + ":guard-subject", "%s tests `%s` but `%s` is encoded"
@@ -1819,18 +1822,20 @@ def run_r4(chk, sides, infos):
                         elif nb < at.signed:
                             r.observe("%s %s: guard %s is %d-bit, field of %s is %d-bit (long form taken early)"
                                       % (side.lang, kind, pn_, nb, cn, at.signed))
-            # inversion: within the kind, the two emissions of the same class differ in exactly an inverted argument
+            # inversion: the long form re-emits the class of the short form with exactly one argument inverted
             byclass = {}
-            for (cn, cf, args, guards) in emis:
-                if all(a is not None for a in args):
-                    byclass.setdefault(cn, []).append((args, guards))
-            for cn, lst in byclass.items():
-                shorts = [x for x in lst if any(len(g) == 2 and g[1] is True for g in x[1])]
-                longs = [x for x in lst if any(len(g) == 2 and g[1] is False for g in x[1])]
-                for (sa, _sg) in shorts:
-                    for (la, _lg) in longs:
+            for (cn, cf, args, fg, via) in emis:
+                if fg is not None and via is None and all(a is not None for a in args):
+                    byclass.setdefault(cn, []).append((args, fg[1]))
+            for cn, lst in sorted(byclass.items()):
+                shorts = [x[0] for x in lst if x[1] is True]
+                longs = [x[0] for x in lst if x[1] is False]
+                for sa in shorts:
+                    for la in longs:
+                        if ceval(side, la[[i for i, (n_, _t) in enumerate(side.classes()[cn].params)
+                                           if infos[(side.lang, cn)].atoms[n_].signed is not None][0]]) is None:
+                            continue                     # the far branch, not the inverted re-emission
                         inv = [i for i in range(len(sa)) if _inverted(sa[i], la[i])]
-                        same = [i for i in range(len(sa)) if uncast(sa[i]) == uncast(la[i])]
                         ikey = "%s:%s:%s:inversion" % (key, kind, cn)
                         r.instance(ikey, sample={"kind": kind, "class": cn,
                                                  "inverted_arg": [side.classes()[cn].params[i][0] for i in inv]})
@@ -1838,18 +1843,27 @@ def run_r4(chk, sides, infos):
                             r.violation(ikey, "the long form of %s does not invert exactly one argument of %s "
                                         "(short: %s; long: %s)" % (kind, cn, ", ".join(srender(x) for x in sa),
                                                                    ", ".join(srender(x) for x in la)), fn.where)
-            # conditional branch inverted through a method (bc_imm(cond.invert(), 2))
+            # the same through a method (Dora: bc_imm(cond, distance) / bc_imm(cond.invert(), 2))
+            bym = {}
             for ev in kinds[kind]:
-                if ev.kind == "mcall" and ev.node[2] == ("var", "self") and any(
-                        ceval(side, a) is not None and int(ceval(side, a)) == 2 for a in ev.node[3]) \
-                        and any(len(g) == 2 and g[1] is False for g in ev.guards):
-                    others = [e2 for e2 in kinds[kind] if e2.kind == "mcall" and e2.node[1] == ev.node[1] and e2 is not ev]
-                    ok = any(any(_inverted(x, y) for x, y in zip(o.node[3], ev.node[3])) for o in others)
-                    ikey = "%s:%s:%s:inversion" % (key, kind, ev.node[1])
-                    r.instance(ikey, sample={"kind": kind, "method": ev.node[1]})
-                    if not ok:
-                        r.violation(ikey, "the long form of %s re-emits %s with distance 2 but without inverting the "
-                                    "condition of the short form" % (kind, ev.node[1]), fn.where)
+                fg = _fits_guard(side, fn, ev.guards)
+                if ev.kind == "mcall" and ev.node[2] == ("var", "self") and fg is not None \
+                        and ev.node[1] in meths and trace_to_class(side, meths[ev.node[1]], len(ev.node[3]) - 1):
+                    bym.setdefault(ev.node[1], []).append((ev.node[3], fg[1]))
+            for mname, lst in sorted(bym.items()):
+                shorts = [x[0] for x in lst if x[1] is True]
+                longs = [x[0] for x in lst if x[1] is False and any(ceval(side, a) is not None for a in x[0])]
+                for sa in shorts:
+                    for la in longs:
+                        inv = [i for i in range(min(len(sa), len(la))) if _inverted(sa[i], la[i])]
+                        ikey = "%s:%s:%s:inversion" % (key, kind, mname)
+                        r.instance(ikey, sample={"kind": kind, "method": mname, "inverted_arg": inv})
+                        if len(inv) != 1:
+                            r.violation(ikey, "the long form of %s re-emits %s without inverting exactly one argument "
+                                        "(short: %s; long: %s)" % (kind, mname, ", ".join(srender(x) for x in sa),
+                                                                   ", ".join(srender(x) for x in la)), fn.where)
+            if ksum["long"]:
+                r.instance("%s:%s:long-form" % (key, kind))
             summary[(side.lang, kind)] = ksum
     # sibling comparison
     rk = {k for (l, k) in summary if l == "rust"}
@@ -1858,9 +1872,10 @@ def run_r4(chk, sides, infos):
         a, b = summary[("rust", k)], summary[("dora", k)]
         r.instance("sibling:%s" % k, sample={"kind": k, "rust": a, "dora": b})
         if a["classes"] != b["classes"]:
-            if set(a["classes"]) <= set(b["classes"]) or set(b["classes"]) <= set(a["classes"]):
-                r.observe("jump kind %s: one side has no long form (rust classes %s, dora classes %s); the short "
-                          "form refuses by the class assert" % (k, a["classes"], b["classes"]))
+            if a["long"] != b["long"] and (set(a["classes"]) <= set(b["classes"]) or set(b["classes"]) <= set(a["classes"])):
+                r.observe("jump kind %s: only %s has a long form (rust classes %s, dora classes %s); the other side "
+                          "refuses an out-of-range distance by the class assert"
+                          % (k, "Dora" if b["long"] else "Rust", a["classes"], b["classes"]))
             else:
                 r.violation("resolve_jumps:%s:sibling-class" % k, "jump kind %s is re-emitted through %s in Rust but "
                             "%s in Dora" % (k, a["classes"], b["classes"]), None)
@@ -1869,6 +1884,8 @@ def run_r4(chk, sides, infos):
                         "test in Rust but a %d-bit test in Dora" % (k, a["guard"], b["guard"]), None)
     for k in sorted(rk ^ dk):
         r.observe("jump kind %s exists on one side only" % k)
+    r.floor("jump kinds compared between the siblings", len(rk & dk), 5)
+    r.floor("resolve_jumps checks evaluated", len(r.nontrivial), 30)
 
 
 # =============================================================================================== R5
@@ -1953,60 +1970,71 @@ def run_r5(chk, sides, infos):
         if names:
             r.observe("%d instruction methods on the %s side only: %s" % (len(names), only, ", ".join(names)))
 
-    def sites(side, meths, evs, emits, m):
+    def deep_sites(side, meths, evs, emits, m, depth=0, stack=()):
+        """class-level emissions of a method with delegations to sibling methods expanded (arguments expressed in
+        the outer method's parameters)"""
         fn = meths[m]
         out = []
         cs = {id(ev): (cn, cf, args) for (cn, cf, args, ev) in class_sites(side, fn, evs[m])}
         for ev in evs[m]:
             if id(ev) in cs:
                 cn, cf, args = cs[id(ev)]
-                out.append(("cls:" + cn, args, ev))
+                out.append(("cls:" + cn, list(args)))
             elif ev.kind == "mcall" and ev.node[2] == ("var", "self") and ev.node[1] in emits:
-                out.append(("self." + ev.node[1], ev.node[3], ev))
+                m2 = ev.node[1]
+                if depth < 4 and m2 not in stack and m2 != m and len(meths[m2].params) == len(ev.node[3]):
+                    for (callee, args2) in deep_sites(side, meths, evs, emits, m2, depth + 1, stack + (m,)):
+                        out.append((callee, [_subst_params(a, ev.node[3]) for a in args2]))
+                else:
+                    out.append(("self." + m2, list(ev.node[3])))
         return out
 
     ncmp = 0
     scale_diff = []
-    shape_diff = []
+    unanalysed = []
     for m in both:
-        sa = sites(rust, rm, revs, remits, m)
-        sb = sites(dora, dm, devs, demits, m)
         key = "AssemblerArm64::%s" % m
-        if [s[0] for s in sa] != [s[0] for s in sb]:
-            # different control structure (one side has extra fall-backs): compare the emissions they share, in order
-            ca = [s for s in sa if s[0] in {t[0] for t in sb}]
-            cb = [s for s in sb if s[0] in {t[0] for t in sa}]
-            if [s[0] for s in ca] != [s[0] for s in cb] or not ca:
-                shape_diff.append("%s (rust: %s; dora: %s)" % (m, " ".join(s[0] for s in sa) or "-",
-                                                               " ".join(s[0] for s in sb) or "-"))
-                r.instance(key, nontrivial=False)
-                continue
-            shape_diff.append("%s (rust: %s; dora: %s) — shared emissions compared" % (
-                m, " ".join(s[0] for s in sa) or "-", " ".join(s[0] for s in sb) or "-"))
-            sa, sb = ca, cb
+        if len(rm[m].params) != len(dm[m].params):
+            r.instance(key, nontrivial=False)
+            r.observe("signature differs, not compared: %s(%s) in Rust, %s(%s) in Dora"
+                      % (m, ", ".join(n for n, _t in rm[m].params), m, ", ".join(n for n, _t in dm[m].params)))
+            continue
+        sa = deep_sites(rust, rm, revs, remits, m)
+        sb = deep_sites(dora, dm, devs, demits, m)
+        if len(sa) != len(sb):
+            r.instance(key, nontrivial=False)
+            unanalysed.append("%s (rust: %s; dora: %s)" % (m, " ".join(x[0] for x in sa) or "-",
+                                                           " ".join(x[0] for x in sb) or "-"))
+            continue
         ncmp += 1
-        for idx, ((ca_, aa, _ea), (cb_, ab, _eb)) in enumerate(zip(sa, sb)):
+        for idx, ((ca_, aa), (cb_, ab)) in enumerate(zip(sa, sb)):
             ikey = "%s:%s" % (key, ca_) + ("#%d" % idx if idx else "")
             r.instance(ikey, sample={"method": m, "callee": ca_, "rust": [srender(x) for x in aa],
                                      "dora": [srender(x) for x in ab]})
+            if ca_ != cb_:
+                r.violation(ikey + ":callee", "emission #%d of %s goes through %s in Rust but %s in Dora"
+                            % (idx, m, ca_, cb_), rm[m].where)
+                continue
             if len(aa) != len(ab):
                 r.violation(ikey + ":arity", "%s passes %d arguments to %s in Rust and %d in Dora"
                             % (m, len(aa), ca_, len(ab)), rm[m].where)
                 continue
+            pnames = ["#%d" % i for i in range(len(aa))]
+            if ca_.startswith("cls:"):
+                pnames = [n for (n, _t) in rust.classes()[ca_[4:]].params]
             for i, (x, y) in enumerate(zip(aa, ab)):
                 sx, sy = arg_summary(rust, x), arg_summary(dora, y)
                 if sx == sy:
                     continue
                 if sx[0] == "p" and sy[0] == "p" and frozenset([sx[1], sy[1]]) in _EQUIV_32BIT_EXTEND \
-                        and ca_.endswith("_w") and "_ext" in ca_:
-                    r.observe("%s: Rust passes %s, Dora %s to %s — equivalent in the 32-bit extended-register form "
-                              "(different option bits, same operation)" % (m, sx[1], sy[1], ca_))
+                        and ca_ == "cls:addsub_extreg" and pnames[i] == "option" and "sf" in pnames \
+                        and ceval(rust, aa[pnames.index("sf")]) == 0 and ceval(dora, ab[pnames.index("sf")]) == 0:
+                    r.observe("%s: Rust passes %s, Dora %s as `option` of the 32-bit addsub_extreg — different "
+                              "option bits, same operation (ExtendReg truncates to 32 bits)" % (m, sx[1], sy[1]))
                     continue
-                pname_ = "#%d" % i
-                if ca_.startswith("cls:"):
-                    pname_ = rust.classes()[ca_[4:]].params[i][0]
-                r.violation("%s:%s" % (ikey, pname_), "%s passes `%s` for %s of %s in Rust but `%s` in Dora (%s vs %s)"
-                            % (m, srender(x), pname_, ca_, srender(y), sx, sy), rm[m].where)
+                r.violation("%s:%s" % (ikey, pnames[i]), "%s passes `%s` for `%s` of %s in Rust but `%s` in Dora "
+                            "(%s vs %s): the same call assembles to different instructions"
+                            % (m, srender(x), pnames[i], ca_, srender(y), sx, sy), rm[m].where)
             # scaling differences are API conventions (bytes vs. pre-scaled): recorded, not failed
             for i, (x, y) in enumerate(zip(aa, ab)):
                 dx, dy = _div_of(x)[1], _div_of(y)[1]
@@ -2016,8 +2044,8 @@ def run_r5(chk, sides, infos):
     if scale_diff:
         r.observe("methods whose immediate parameter is in bytes on one side and pre-scaled on the other (same name, "
                   "different contract): " + ", ".join(scale_diff))
-    for sd in shape_diff:
-        r.observe("different emission structure: " + sd)
+    for sd in unanalysed:
+        r.observe("unanalysed: different number of emissions, not compared: " + sd)
 
 
 # =============================================================================================== entry
